@@ -1385,8 +1385,14 @@ CONN_CATALOGUE = [
     ['peerRst:linger', 'disconnect'],
     ['peerFin', 'shutdown', 'shutdown'],
     ['peerSend', 'peerSend', 'readline', 'peerRst:unread', 'readline', 'readline', 'shutdown', 'disconnect'],
+    # ---- a line arriving in segments, with pauses longer than the inter-byte time-out (readline returns None in between)
+    ['peerPart', 'readline', 'peerSend', 'readline', 'readline'],
+    ['peerSend', 'peerPart', 'readline', 'readline', 'peerPart', 'readline', 'peerSend', 'peerSend', 'readline', 'readline', 'readline'],
+    ['peerPart', 'peerSend', 'readline', 'peerPart', 'readline', 'peerFin', 'readline', 'shutdown'],
+    ['peerPart', 'readline', 'peerRst:linger', 'readline', 'send', 'disconnect'],
+    ['peerPart', 'readline', 'shutdown', 'readline', 'disconnect'],
 ]
-CONN_STEPS = (['peerSend'] * 2 + ['peerFin', 'peerRst:linger', 'peerRst:unread'] + ['readline'] * 4 + ['send'] * 2
+CONN_STEPS = (['peerSend'] * 3 + ['peerPart'] * 2 + ['peerFin', 'peerRst:linger', 'peerRst:unread'] + ['readline'] * 5 + ['send'] * 2
               + ['shutdown'] * 2 + ['disconnect'])
 E2E_KINDS = ['fin', 'rst', 'unread', 'user']
 E2E_BOUND_MS = 3000
